@@ -13,10 +13,10 @@ import functools
 from .values import sig
 from .driver import make_exc
 
-ASYNC_FLAVOURS = ("agen", "aclass", "aclass_noclose", "aplain", "agenlike", "aeager")
-SYNC_FLAVOURS = ("list", "seq", "iter", "tuple", "tuplesub")
+ASYNC_FLAVOURS = ("agen", "aclass", "aclass_noclose", "aplain", "agenlike", "aeager", "aproxy", "areiter")
+SYNC_FLAVOURS = ("list", "seq", "iter", "tuple", "tuplesub", "reiter")
 SRC_FLAVOURS = ASYNC_FLAVOURS + SYNC_FLAVOURS
-FN_FLAVOURS = ("def", "async", "partial", "obj", "objaw", "falsyobj")
+FN_FLAVOURS = ("def", "async", "partial", "obj", "objaw", "falsyobj", "eqobj", "unhashobj", "aeqobj")
 
 
 class SourceBase:
@@ -31,6 +31,7 @@ class SourceBase:
         self.pulls = 0
         self.susp = spec.get("susp", 0)
         self.csusp = spec.get("csusp", False)
+        self.eqsrc = bool(spec.get("eqsrc"))
         fault = spec.get("fault")
         self.fault_at = fault["at"] if fault else None
         self.fault_exc = None
@@ -53,6 +54,15 @@ class SourceBase:
 
     def __vsig__(self):
         return ("src", self.name)
+
+    def __eq__(self, other):
+        # spec "eqsrc": sources with VALUE equality (like dataclass cursors): distinct sources compare equal
+        if self.eqsrc and isinstance(other, SourceBase):
+            return True
+        return self is other
+
+    def __hash__(self):
+        return 0 if self.eqsrc else id(self) >> 4
 
     # one pull, shared by all flavours; returns (kind, value)
     def _begin(self):
@@ -197,6 +207,98 @@ class AClassSource(SourceBase):
         return self.closed or self.exhausted
 
     obj = property(lambda self: self)
+
+
+class _Proxy:
+    """delegating proxy around an iterator: only the iteration protocol is spelled out, everything else
+    (aclose included) is reached through ``__getattr__``, so it is invisible to static attribute lookup"""
+
+    def __init__(self, inner):
+        self.__dict__["_inner"] = inner
+
+    def __aiter__(self):
+        return self
+
+    def __anext__(self):
+        return self.__dict__["_inner"].__anext__()
+
+    def __getattr__(self, name):
+        return getattr(self.__dict__["_inner"], name)
+
+    def __vsig__(self):
+        return self.__dict__["_inner"].__vsig__()
+
+
+class AProxySource(AClassSource):
+    """class based async iterator with aclose, handed to the tool behind a delegating proxy"""
+
+    def __init__(self, ctx, name, items, spec=None):
+        super().__init__(ctx, name, items, spec)
+        self._proxy = _Proxy(self)
+
+    obj = property(lambda self: self._proxy)
+
+
+class _AIterable:
+    """async ITERABLE (not an iterator): every ``__aiter__`` call is logged and opens a cursor of its own.
+    The first cursor is the double itself; any further one is an independent cursor over the same items."""
+
+    def __init__(self, owner):
+        self.owner = owner
+
+    def __aiter__(self):
+        return self.owner._open(AClassSource)
+
+    def __vsig__(self):
+        return self.owner.__vsig__()
+
+
+class _Iterable:
+    """synchronous counterpart of _AIterable"""
+
+    def __init__(self, owner):
+        self.owner = owner
+
+    def __iter__(self):
+        return self.owner._open(SyncSource)
+
+    def __vsig__(self):
+        return self.owner.__vsig__()
+
+
+class _ReiterMixin:
+    def _init_reiter(self):
+        self.opens = 0
+        self.extra_cursors = []
+        self._iterable = _AIterable(self) if isinstance(self, AClassSource) else _Iterable(self)
+
+    def _open(self, cursor_class):
+        self.ctx.ev("open", self.name)
+        self.opens += 1
+        if self.opens == 1:
+            return self
+        extra = cursor_class(self.ctx, f"{self.name}+{self.opens - 1}", list(self.items), {})
+        self.extra_cursors.append(extra)
+        return extra
+
+    obj = property(lambda self: self._iterable)
+
+
+class AReiterSource(_ReiterMixin, AClassSource):
+    def __init__(self, ctx, name, items, spec=None):
+        super().__init__(ctx, name, items, spec)
+        self._init_reiter()
+
+    @property
+    def released(self):
+        mine = self.closed or self.exhausted or not self.pulls
+        return mine and all(c.released or not c.pulls for c in self.extra_cursors)
+
+
+class ReiterSource(_ReiterMixin, SyncSource):
+    def __init__(self, ctx, name, items, spec=None):
+        super().__init__(ctx, name, items, spec)
+        self._init_reiter()
 
 
 class _Ready:
@@ -347,6 +449,9 @@ _SRC_CLASSES = {
     "aplain": APlainSource,
     "agenlike": AGenLikeSource,
     "aeager": AEagerSource,
+    "aproxy": AProxySource,
+    "areiter": AReiterSource,
+    "reiter": ReiterSource,
     "list": ListSource,
     "tuple": TupleSource,
     "tuplesub": TupleSubSource,
@@ -364,6 +469,8 @@ def make_source(ctx, name, items, spec, side):
         if (spec or {}).get("fl") in ("tuple", "tuplesub") and not (spec or {}).get("fault"):
             # what the stdlib does with a tuple (subclass) argument depends on its type
             return _SRC_CLASSES[spec["fl"]](ctx, name, items, spec)
+        if (spec or {}).get("fl") in ("areiter", "reiter"):
+            return ReiterSource(ctx, name, items, spec)  # logs when the tool asks for an iterator ("open")
         return SyncSource(ctx, name, items, spec)
     return _SRC_CLASSES[(spec or {}).get("fl", "agen")](ctx, name, items, spec)
 
@@ -437,6 +544,9 @@ class Fn:
                 return AwaitableItem(("late", self.name, self.calls))
         if self.kind == "ident":
             return args[0]
+        if self.kind == "typeof":
+            # a CLASS as result: the class of an awaitable item has an __await__ attribute without being awaitable
+            return type(args[-1])
         key = 0
         for a in args:
             if isinstance(a, Item):
@@ -488,6 +598,32 @@ class Fn:
                     return outer2._result(args)
 
             return FalsyCallable()
+        if fl in ("eqobj", "unhashobj", "aeqobj"):
+            outer3 = self
+
+            class ValueCallable:
+                """a callable object with VALUE equality (like a dataclass with __call__): all instances compare
+                equal and hash alike ("eqobj", "aeqobj": async __call__) or are unhashable ("unhashobj")"""
+
+                def __eq__(self_inner, other):  # noqa: N805
+                    return type(other).__name__ == "ValueCallable"
+
+                if fl == "unhashobj":
+                    __hash__ = None
+                else:
+                    def __hash__(self_inner):  # noqa: N805
+                        return 7
+
+                if fl == "aeqobj":
+                    async def __call__(self_inner, *args):  # noqa: N805
+                        outer3.invoked += 1
+                        return await body(*args)
+                else:
+                    def __call__(self_inner, *args):  # noqa: N805
+                        outer3.invoked += 1
+                        return outer3._result(args)
+
+            return ValueCallable()
         if fl == "objaw":
 
             class _Aw:
